@@ -902,11 +902,17 @@ type semOutcome struct {
 // features lists the constructs a program uses (go/ast walk of main); used to group failures.
 func features(src string) []string {
 	if isScopingProgram(src) {
-		fs := shadowFeatures(src)
-		for i := range fs {
-			fs[i] = "scoping:" + fs[i]
+		// what is done to the shadowing / the outer variable; block kind and residency are dropped so that
+		// one scoping defect gives one signature
+		m := map[string]bool{}
+		for _, x := range shadowFeatures(src) {
+			if strings.HasPrefix(x, "shadow-in-") || strings.HasPrefix(x, "redeclared-in-") || x == "bare-block" {
+				continue
+			}
+			x = strings.TrimSuffix(strings.TrimSuffix(x, "-mem"), "-reg")
+			m["scoping:"+x] = true
 		}
-		return fs
+		return keys(m)
 	}
 	f := map[string]bool{}
 	fset := token.NewFileSet()
@@ -1193,6 +1199,7 @@ func part2(run *vlib.Run, bt *built) bool {
 	var mu sync.Mutex
 	var harnessErr error
 	capHit := false
+	totalTries := 0
 	var wg sync.WaitGroup
 	work := make(chan batch)
 	for w := 0; w < 14; w++ {
@@ -1229,6 +1236,11 @@ func part2(run *vlib.Run, bt *built) bool {
 					}
 					mu.Unlock()
 					continue
+				}
+				for i := range rs {
+					mu.Lock()
+					totalTries += rs[i].Tries
+					mu.Unlock()
 				}
 				for i, p := range ps {
 					oc := judge(xw, p, rs[i].Status, rs[i].Panic, rs[i].Detail, rs[i].Choices)
@@ -1302,6 +1314,7 @@ func part2(run *vlib.Run, bt *built) bool {
 	}
 	if *verbose {
 		fmt.Printf("part2: %d programs (%s), %d done in %.1fs: %v\n", len(progs), strings.Join(planDescr, " "), done, time.Since(t0).Seconds(), counts)
+		fmt.Printf("part2 compiler executions (schedules run until one completed): %d for %d programs\n", totalTries, done)
 		fmt.Printf("part2 cumulative worker time: compile %.1fs render(+lock wait) %.1fs parse/elaborate/simulate %.1fs\n", tCompile.d.Seconds(), tRender.d.Seconds(), tSim.d.Seconds())
 	}
 	return true
@@ -1365,6 +1378,14 @@ func judge(xw *execWorker, p *semProg, status, panicMsg, detail string, choices 
 	if h.Status == "ran" && outsEqual(ref.Outs, h.Outs, n) {
 		oc.Class = "ok"
 		if isaStatus != "ran" || !outsEqual(ref.Outs, isaOuts, n) {
+			if !strings.HasPrefix(isaStatus, "isa-model") && h.Diverg != "" {
+				// the hardware agrees with the source only because it does NOT execute the emitted assembly
+				// faithfully (opcode h.Diverg, e.g. the je placeholder skips the miscompiled code): the code
+				// generation defect is real and merely masked
+				oc.Class = "codegen-mismatch"
+				oc.Detail = fmt.Sprintf("source writes %s; the emitted assembly under the ISA model writes %s (%s); the generated hardware writes %s only because its opcode `%s` does not execute the assembly faithfully (%s)", fmtOuts(ref.Outs, n), fmtOuts(isaOuts, n), isaStatus, fmtOuts(h.Outs, n), h.Diverg, h.DivHow)
+				return oc
+			}
 			oc.ISADisagrees = true
 		}
 		return oc
